@@ -122,6 +122,7 @@ def system_case(case):
             d.p_fail_repair_new_signal = 1.0; d.p_fail_repair_reboot = 1.0        # retry and reboot fail: manual repair
     sim = Simulation(ps, random_seed=case["seed"])
     prev = {}
+    frozen = {}
     stat = {"rep": 0, "k": 0}
     line_names = {l.name for l in ps.lines} | {il.name for il in getattr(ps, "ict_lines", [])}
     ict_names = {il.name for il in getattr(ps, "ict_lines", [])}
@@ -147,6 +148,10 @@ def system_case(case):
             if name in prev and prev[name][0] == "REPAIR" and st == "REPAIR":
                 stat["rep"] += 1
                 drop = prev[name][1] - rem
+                # a component under repair is being repaired: its remaining time moves (ordinary and backup lines alike)
+                frozen[name] = frozen.get(name, 0) + 1 if abs(drop) <= 1e-12 and rem > 1e-12 else 0
+                if frozen[name] >= 3:
+                    viols.append(("system.frozen", f"increment {stat['k']}: {name} has been under repair with {rem} h left for {frozen[name]} increments: its repair does not proceed"))
                 # (a line's remaining time may be *raised* meanwhile: the controller adds the manual sectioning time of its section)
                 if (drop > dt + 1e-9) if name in line_names else (abs(drop - dt) > 1e-9):
                     viols.append(("system.countdown", f"increment {stat['k']}: {name} stays under repair, its remaining time went from {prev[name][1]} h to {rem} h with a step of {dt} h"))
@@ -154,6 +159,11 @@ def system_case(case):
         stat["k"] += 1
     def cb(ps, prev_time, curr_time):
         close()
+        if case.get("tie_fault") and stat["k"] in case["tie_fault"]:
+            # a backup line is made to fail (it is repaired like any other line)
+            for l in ps.lines:
+                if l.is_backup and not l.failed:
+                    l.fail(curr_time - prev_time if prev_time is not None else curr_time)
     with contextlib.redirect_stdout(io.StringIO()):
         sim.run_sequential(start_time=TimeStamp(), stop_time=TimeStamp(hour=int(n * dt) % 24, day=int(n * dt) // 24), time_step=Time(dt, TimeUnit.HOUR),
                            time_unit=TimeUnit.HOUR, callback=cb, save_dir=acct.tmpdir("c13_sys"), save_flag=False)
@@ -525,6 +535,14 @@ def gen(rng, n):
             spec["ctrl"]["ict"] = {"n": len(names) + 1, "lines": [[0, i + 1] for i in range(len(names))], "attach": {nm: i + 1 for i, nm in enumerate(names)}}
         cases.append({"kind": "system", "spec": spec, "n_inc": 60, "dt": rng.choice([1.0, 0.5]), "seed": rng.randint(0, 10 ** 6),
                       "line_rate": rng.choice([1500.0, 3000.0]), "dev_rate": rng.choice([3000.0, 6000.0]), "dev_rep": rng.choice([3.0, 4.0])})
+    for q in range(max(2, n // 40)):
+        # ... and systems with two feeders and a backup line between them that fails (at chosen increments and by itself)
+        from . import net
+        spec = net.rand_feeder_spec(rng, max_lines=4, ctrl=rng.choice(["main", "manual"]), allow_tie=True, allow_mg=False, nfeed=2)
+        while not spec.get("tie"):
+            spec = net.rand_feeder_spec(rng, max_lines=4, ctrl=rng.choice(["main", "manual"]), allow_tie=True, allow_mg=False, nfeed=2)
+        cases.append({"kind": "system", "spec": spec, "n_inc": 50, "dt": rng.choice([1.0, 0.5]), "seed": rng.randint(0, 10 ** 6), "tie_fault": [2, 25],
+                      "line_rate": rng.choice([500.0, 1500.0]), "dev_rate": rng.choice([3000.0, 6000.0]), "dev_rep": rng.choice([3.0, 4.0])})
     for q in range(max(4, n // 20)):
         from . import c07
         nl = rng.randint(3, 5)
